@@ -16,7 +16,8 @@ from tradingenv.contracts import AbstractContract, Cash, ETF, ES, ZN, Rate
 from tradingenv.events import EventNBBO
 from tradingenv.exchange import Exchange
 
-EPS = 1e-7          # Broker's default snap threshold (the harness never passes epsilon)
+EPS = 1.001e-7      # just outside the Broker's default snap band |q| < 1e-7 (the harness never passes
+                    # epsilon; the 0.1% margin keeps float replays off the band's edge)
 P_LO, P_HI = 1e-3, 1e6
 Q_HI = 1e6
 
@@ -25,7 +26,7 @@ ASSUMPTIONS = [
     "prices in [1e-3, 1e6], |positions| and |trades| <= 1e6, multiplier in [1e-3, 1e4], "
     "margin requirement in (0, 1], fixed fee in [0, 1e3], proportional fee in [0, 1], "
     "|cash| <= 1e9 (magnitude bounds keep float replays meaningful)",
-    "pre- and post-trade positions are 0 or at least 1e-7 in absolute value (the broker's "
+    "pre- and post-trade positions are 0 or at least 1.001e-7 in absolute value (the broker's "
     "documented snap-to-zero band is excluded); the broker is built with its default epsilon",
     "quotes satisfy 0 < bid <= ask; missing quotes are concrete NaN patterns (C13 only)",
     "pre-state satisfies INV: margin_i = r_i*m_i*|q_i|*last_mark_i for a margined contract "
@@ -138,9 +139,12 @@ def build_account(c, legs, fees=True, cash_name="cash"):
     quote(exchange, fee.interest_rate, 0.0, 0.0)
     cash = c.real(cash_name, -1e9, 1e9)
     broker = Broker(exchange=exchange, deposit=cash, fees=fee)
+    c.scale_hint(cash)
     for leg in legs:
         if leg.bid is not None:
             quote(exchange, leg.contract, leg.bid, leg.ask)
+            if leg.shape not in ("fresh", "flat"):
+                c.scale_hint(leg.q * leg.m * leg.ask)
         leg.install(broker)
     return exchange, broker, fee, cash
 
